@@ -149,6 +149,17 @@ func c11Scenarios() []ConcScenario {
 			}
 		}
 	}
+	// the packet that ends the tunnel is the tail of a transport read of exactly 4096 / 8192 bytes (the gateway's
+	// read buffer size and twice it), and of one byte less and more
+	for _, kind := range []string{"ws", "legacy"} {
+		for _, total := range []int{4095, 4096, 4097, 8192} {
+			for _, cause := range []string{"close", "bad"} {
+				sc := ConcScenario{Name: fmt.Sprintf("%s/%s-as-tail-of-a-%d-byte-read", kind, cause, total),
+					Plans: []TunnelPlan{{Kind: kind, ConnID: "A", User: "ua", IP: "10.0.0.1", Host: "ha.example:3389", Script: []string{fmt.Sprintf("coalesced:%d:%s", total, cause), "idle"}}}}
+				out = append(out, sc)
+			}
+		}
+	}
 	// many tunnels are open and stay open; one more tunnel ends (in the middle of its channel request, or after its
 	// channel exists): its resources are released while the others live. One (lockstep) schedule each.
 	for _, n := range []int{16, 64} {
